@@ -107,6 +107,7 @@ pub fn gen_conc(prop: &PropDef, seed: u64, tier: &str) -> RunSpec {
         fifo_counter: 0,
         fifo_descending: false,
         huge_values: false,
+        empty_values: false,
     };
     let scale = if tier == "thorough" { 2 } else { 1 };
     let mut threads: Vec<(String, Vec<Act>)> = Vec::new();
